@@ -738,6 +738,11 @@ func (bw *blkWorld) model() {
 	if bw.b == nil || bw.tearingDown {
 		return
 	}
+	if s.ParkedNow() > 0 {
+		// a goroutine the harness itself holds right after its wake-up is exempt
+		// until it has been released (in this same instant) and has settled
+		return
+	}
 	now := s.Epoch().Add(s.Now())
 	// readers on B
 	carry, peek := 0, -1
